@@ -215,6 +215,8 @@ TOp ==
      THEN \* the implementation crashed / aborted / hung inside this call; the execution ends here
           /\ viol' = AddViol(viol, {"C01", "C02"} \cup (IF lb.op = "swap2" THEN {"C13"} ELSE {}) \cup
                                    (IF lb.k > 0 THEN {"C09"} ELSE {}) \cup (IF lb.src > 0 THEN {"C10"} ELSE {}) \cup
+                                   \* a call that had to be refused with a limit error
+                                   (IF Legal(st, lb) /\ Step(st, lb).ret.k = "exc" THEN {"C08"} ELSE {}) \cup
                                    (IF lb.op = "relocate" \/ (lb.c \in Slots /\ gh[lb.c].reloc) THEN {"C14"} ELSE {}),
                             l, "crash:" \o r.s)
           /\ UNCHANGED <<st, last, objs, blocks, gh, stats>>
